@@ -445,4 +445,26 @@ def idealScan (ign : List String) : Nat → List Bin → List (String × List Bi
 def idealGroups (ign : List String) (t : List Bin) : List (String × List Bin) :=
   (byChrom t).flatMap (fun p => idealScan ign p.2.length p.2)
 
+/-! ### vocabulary of the theorems -/
+
+/-- no two consecutive groups are both labelled Antitarget -/
+def NoTwoAT : List (String × List Bin) → Prop
+  | a :: b :: rest => ¬(a.1 = antitarget ∧ b.1 = antitarget) ∧ NoTwoAT (b :: rest)
+  | _ => True
+
+/-- replace the index labels of a table -/
+def relabel (f : Bin → Int) (b : Bin) : Bin := { b with label := f b }
+
+/-- a table is contiguous when each chromosome's rows are -/
+def TableContiguous (ign : List String) (t : List Bin) : Prop :=
+  ∀ p ∈ byChrom t, Contiguous ign p.2
+
+/-- `cur` is immediately followed by `nxt` in the segment table -/
+def Consecutive (cur nxt : SegRow) (segs : List SegRow) : Prop :=
+  ∃ l1 l2, segs = l1 ++ cur :: nxt :: l2
+
+/-- the bins of the gene (whole gene string) `g` on chromosome `c` -/
+def geneBins (t : List Bin) (c g : String) : List Bin :=
+  t.filter (fun b => b.chrom == c && b.gene == g)
+
 end CnvVerif.Genes
